@@ -380,6 +380,14 @@ func genPmt(g *core.Gen) {
 			emit("pmt-shapes", b)
 		}
 	}
+	// the single matched transaction at every position
+	for _, n := range []int{5, 8, 13, 33} {
+		for pos := 0; pos < n; pos++ {
+			b := bytes.Repeat([]byte{'0'}, n)
+			b[pos] = '1'
+			emit("pmt-position", b)
+		}
+	}
 	// CompactSize boundaries of the two counts of the message: alternating matches give exactly n hashes,
 	// all-matched gives about 2n flag bits (252..254 flag bytes for n around 1008..1016)
 	for _, n := range []int{252, 253, 254} {
